@@ -320,5 +320,18 @@ func genC19(c *ctx) {
 		}
 		st.Add(&cs.Case{Coq: coqw.App("KFind", coqw.List(coqToks), coqw.ListOf(idx(pt), coqw.N), coqw.ListOf(idx(dt), coqw.N)),
 			Desc: map[string]any{"op": "FindPermissionAndDischargeTokens", "tokens": desc, "impl_perm": idx(pt), "impl_dis": idx(dt)}, Class: "find", Nontrivial: true})
+		// the same tokens as a header through ParsePermissionAndDischargeTokens: exactly one permission token, for any number of tokens
+		hdr := macaroon.ToAuthorizationHeader(toks...)
+		one, ds, err := macaroon.ParsePermissionAndDischargeTokens(hdr, "loc")
+		var pi uint64
+		if err == nil {
+			if ix := idx([][]byte{one}); len(ix) == 1 {
+				pi = ix[0]
+			} else {
+				pi = 999
+			}
+		}
+		st.Add(&cs.Case{Coq: coqw.App("KFindOne", coqw.List(coqToks), coqw.Bool(err == nil), coqw.N(pi), coqw.ListOf(idx(ds), coqw.N)),
+			Desc: map[string]any{"op": "ParsePermissionAndDischargeTokens", "tokens": desc, "header": hdr, "impl_ok": err == nil, "impl_perm": pi, "impl_dis": idx(ds)}, Class: fmt.Sprintf("find-one/%d", k), Nontrivial: true})
 	}
 }
